@@ -224,11 +224,22 @@ def impl_observations(mod, cases, rundir, tag):
         return obs, notes
     if len(cases) == 1:
         return [[-1, 97]], [[0, "worker died: " + (err or "")[-200:]]]
+    # the shard died or hung: find culprits one case at a time, but only among the first few
+    # cases (a tree that hangs on everything must not cost len(cases) x timeout); the rest of
+    # the shard is reported as not run, which is a failure of the check like any other
     obs, notes = [], []
+    budget = 8
     for i, c in enumerate(cases):
+        if budget <= 0:
+            obs.append([-1, 97])
+            notes.append([i, "not run: the worker of this shard died or hung (%s)" % (err or "")[-120:]])
+            continue
         o, n, e = run_worker(mod, [c], rundir, "%s_%d" % (tag, i), timeout=per * 2 + 30)
         if o is None:
             o, n = [[-1, 97]], [[0, "worker died: " + (e or "")[-200:]]]
+            budget -= 1
+        elif o[0] == [-1, 98]:
+            budget -= 1
         obs.append(o[0])
         notes += [[i, x[1]] for x in n]
     return obs, notes
